@@ -10,6 +10,7 @@ package main
 
 import (
 	"fmt"
+	"sort"
 	"strings"
 
 	"github.com/hashicorp/hcl/v2"
@@ -462,6 +463,23 @@ func runOracle(c *genCase, text string, rep *hv.Report) []oracleResult {
 		got := map[string]string{}
 		for _, a := range append(append([]obsAttr{}, s1.Attrs...), s2.Attrs...) {
 			got[a.Name] = hv.DumpVal(a.Val)
+		}
+		// every attribute exactly once over the two steps, the same set as in one step
+		var twoNames, oneNames []string
+		for _, a := range s1.Attrs {
+			twoNames = append(twoNames, a.Name)
+		}
+		for _, a := range s2.Attrs {
+			twoNames = append(twoNames, a.Name)
+		}
+		for _, a := range blk.Sub.Attrs {
+			oneNames = append(oneNames, a.Name)
+		}
+		sort.Strings(twoNames)
+		sort.Strings(oneNames)
+		if strings.Join(twoNames, ",") != strings.Join(oneNames, ",") {
+			fail("partial-differs-from-content", fmt.Sprintf("block %s%q: Content returns attributes [%s], PartialContent + remain.Content return [%s]", blk.Type, blk.Labels, strings.Join(oneNames, ","), strings.Join(twoNames, ",")))
+			continue
 		}
 		for _, a := range blk.Sub.Attrs {
 			if g, ok := got[a.Name]; ok && g != hv.DumpVal(a.Val) {
